@@ -29,7 +29,7 @@ RULE = ("byte strings = valid encodings mutated at every field / truncated at ev
         "= distinct case line")
 
 VN_WRAPS = ["coap_ticks", "coap_socket_send", "coap_socket_recv"]
-STATES = ["fresh", "obs", "blk2", "blk1", "client", "osc"]
+STATES = ["fresh", "obs", "blk2", "blk1", "client", "osc", "qfresh", "qb1", "qb2", "cblk2", "cobs"]
 
 
 def hostile_dgram(r, state):
@@ -37,13 +37,16 @@ def hostile_dgram(r, state):
     x = r.random()
     if x < 0.12:
         return gen_wire.rbytes(r, r.choice([0, 1, 2, 3, 4, 5, 6, 8, 13, 40]))
-    tok = {"obs": b"\xaa\xbb", "blk2": b"\xcc\xdd", "blk1": b"\xee\xff", "client": b"\x11\x22"}.get(
+    tok = {"obs": b"\xaa\xbb", "blk2": b"\xcc\xdd", "blk1": b"\xee\xff", "client": b"\x11\x22",
+           "cblk2": b"\x11\x22", "cobs": b"\x11\x22", "qb1": b"\xe1\xe2", "qb2": b"\xd1\xd2"}.get(
         state, bytes([r.randrange(256)]))
     if r.random() < 0.3:
         tok = gen_wire.rbytes(r, r.choice([0, 1, 2, 8]))
-    path = {"obs": b"obs", "blk2": b"big", "blk1": b"put"}.get(state, r.choice([b"canary", b"x", b"put", b"big", b"obs"]))
+    path = {"obs": b"obs", "blk2": b"big", "blk1": b"put", "qb1": b"put", "qb2": b"big"}.get(
+        state, r.choice([b"canary", b"x", b"put", b"big", b"obs"]))
+    is_client = state in ("client", "cblk2", "cobs")
     mid = r.choice([0x1001, 0x1002, 0x1003, 0x1004, r.randrange(65536)])
-    if state == "client":
+    if is_client:
         ty = r.choice([2, 2, 1, 0, 3])
         code = r.choice([0x45, 0x44, 0x5f, 0x84, 0xa0, 0x00, 0x41, 0x01, r.randrange(256)])
     else:
@@ -81,7 +84,30 @@ def hostile_dgram(r, state):
             v += r.choice([b"", b"\x02", b"\x01", b"\x02\x03", gen_wire.rbytes(r, 7)])
         opts = [o for o in opts if o[0] != 9] + [(9, v[:255])]
         code = r.choice([2, 2, 5, 0x44, 1])
-    if state != "client" or r.random() < 0.2:
+    if state[0] == "q" and r.random() < 0.7:
+        # Q-Block1 / Q-Block2 values: NUM around the burst, M, SZX incl. the reserved 7
+        num = r.choice([0, 1, 2, 3, 4, 5, 9, 10, 11, 46, 47, 100, 0xfffff])
+        v = (num << 4) | (r.choice([0, 1]) << 3) | r.choice([0, 2, 2, 2, 6, 7])
+        bv = v.to_bytes(max(1, (v.bit_length() + 7) // 8), "big") if v else b""
+        opts = [o for o in opts if o[0] not in (19, 31)] + [(19 if state == "qb1" or (state == "qfresh" and r.random() < 0.5) else 31, bv)]
+        code = r.choice([3, 3, 1, 5, 2]) if state != "qb2" else r.choice([1, 1, 5, 3])
+        ty = r.choice([1, 1, 1, 0])
+    if state in ("cblk2", "cobs") and r.random() < 0.7:
+        # responses that continue / disturb the client's transfer or observation
+        if state == "cblk2":
+            num = r.choice([0, 1, 1, 2, 3, 40, 0xfffff])
+            v = (num << 4) | (r.choice([0, 1]) << 3) | r.choice([0, 2, 2, 2, 6, 7])
+            bv = v.to_bytes(max(1, (v.bit_length() + 7) // 8), "big") if v else b""
+            opts = [o for o in opts if o[0] != 23] + [(23, bv)]
+            if r.random() < 0.4:
+                opts.append((28, r.choice([b"", b"\x40", b"\x0b\xb8", b"\xff\xff\xff\xff"])))
+            if r.random() < 0.4:
+                opts.append((4, gen_wire.rbytes(r, r.choice([1, 4, 8]))))
+        else:
+            opts = [o for o in opts if o[0] != 6] + [(6, r.choice([b"", b"\x06", b"\x05", b"\xff\xff\xff", b"\x00\x01"]))]
+        code = r.choice([0x45, 0x45, 0x45, 0x44, 0x84, 0xa0, 0x5f])
+        ty = r.choice([2, 1, 0, 0])
+    if not is_client or r.random() < 0.2:
         opts.append((11, path))
     if r.random() < 0.15:
         # values full of characters that the path / query reconstruction has to escape (sizes of
@@ -96,7 +122,7 @@ def hostile_dgram(r, state):
         opts += big
         if r.random() < 0.7:
             tok = gen_wire.rbytes(r, 8)
-        if r.random() < 0.6 and state != "client":
+        if r.random() < 0.6 and not is_client:
             opts = [o for o in opts if o[0] != 6] + [(6, b"")]
             code = 1
     opts.sort(key=lambda o: o[0])
@@ -127,7 +153,7 @@ def summary_of(err):
     return re.sub(r"\s+", " ", err)[:300]
 
 
-def block_sequence(r):
+def block_sequence(r, optnum=27):
     """Block1 uploads to /put with hostile NUM orders (descending, gaps, repeats), M mostly set,
     full-size blocks: drives the received-block range array and the reassembly buffer"""
     szx = r.choice([0, 2, 2, 2, 6])
@@ -151,14 +177,15 @@ def block_sequence(r):
         m = 0 if (i == n - 1 and r.random() < 0.5) else 1
         v = (max(num, 0) << 4) | (m << 3) | szx
         bv = v.to_bytes(max(1, (v.bit_length() + 7) // 8), "big")
-        opts = [(11, b"put"), (27, bv)]
+        opts = [(11, b"put"), (optnum, bv)]
         if r.random() < 0.3:
             opts.append((60, r.choice([b"", b"\x40", b"\x01\x00", b"\xff\xff\xff\xff"])))
         if r.random() < 0.3:
             opts.append((292, gen_wire.rbytes(r, r.choice([0, 1, 8]))))
         opts.sort(key=lambda o: o[0])
         pl = gen_wire.rbytes(r, size if m or r.random() < 0.5 else r.randrange(1, size + 1))
-        out.append(gen_wire.py_serialize("udp", r.choice([0, 0, 1]), r.choice([3, 3, 2]), 0x2000 + i,
+        out.append(gen_wire.py_serialize("udp", r.choice([0, 0, 1]) if optnum == 27 else r.choice([1, 1, 0]),
+                                         r.choice([3, 3, 2]), 0x2000 + i,
                                          tok if r.random() < 0.8 else gen_wire.rbytes(r, 2), opts, pl))
     return out
 
@@ -333,8 +360,8 @@ def main(run):
     ncorp = len(cases)
     for i in range(700 if quick else 20000):
         st = STATES[i % len(STATES)]
-        if st in ("fresh", "blk1", "osc") and i % 4 == 0:
-            ds = block_sequence(r)
+        if st in ("fresh", "blk1", "osc", "qfresh") and i % 4 == 0:
+            ds = block_sequence(r, 19 if st == "qfresh" else 27)
         else:
             ds = [hostile_dgram(r, st) for _ in range(r.choice([1, 1, 2, 3, 4, 6]))]
         cases.append("hz %s %s" % (st, " ".join(d.hex() if d else "-" for d in ds)))
@@ -371,6 +398,11 @@ def main(run):
                 summary_of(err) if err else o)
         elif "canary=ok" not in o:
             why = "endpoint no longer answers a well-formed request after hostile input: " + o[-120:]
+        elif re.search(r"maxbody=(\d+)", o) and \
+                int(re.search(r"maxbody=(\d+)", o).group(1)) > sum(len(t) // 2 for t in toks[2:]) + 128:
+            why = ("a request handler was given a body of %s bytes although the peer sent %d bytes in all "
+                   "(bytes never received handed out as data)" %
+                   (re.search(r"maxbody=(\d+)", o).group(1), sum(len(t) // 2 for t in toks[2:])))
         else:
             fs = re.findall(r"i(\d+)=(\d+):(\d+):(\S+)", o)
             for (idx, hc, nr, first) in fs:
